@@ -12,6 +12,7 @@ EXPLANATION = (
     "Filter are the derived byte-wise ones over a single [u8] field; the JSON writer emits exactly the seven member "
     "names the parser dispatches on and passes content and tag strings through json_escape. Round-trip equality and "
     "the variable-length region (written through moving cursors) are not decided.")
+EXPLANATION += " Also decided: json_unescape writes only table constants, verbatim input bytes or encode_utf8 output."
 ASSUMPTIONS = []
 
 
